@@ -50,7 +50,8 @@ Report(r) ==
      /\ PrintT("J " \o ToJson([kind |-> "apistat", id |-> r.rid, matches |-> NMatches(r), mism |-> Cardinality(mm)]))
 
 VARIABLE i
-Init == i \in 1..Min2(NCHAINS, NObs)
-Next == i + NCHAINS <= NObs /\ i' = i + NCHAINS
-Judged == Report(Obs[i])
+\* (the first state judges nothing: TLC evaluates initial states on a thread with a small stack)
+Init == i = 0
+Next == IF i = 0 THEN i' \in 1..Min2(NCHAINS, NObs) ELSE i + NCHAINS <= NObs /\ i' = i + NCHAINS
+Judged == i = 0 \/ Report(Obs[i])
 =============================================================================
